@@ -119,7 +119,8 @@ def part_cache_switches():
         d = tempfile.mkdtemp(prefix='stspec', dir='/tmp')
         try:
             for f in os.listdir(lib.SPEC):
-                shutil.copy(os.path.join(lib.SPEC, f), d)
+                if os.path.isfile(os.path.join(lib.SPEC, f)):
+                    shutil.copy(os.path.join(lib.SPEC, f), d)
             a, b = sw.split('/')
             p = os.path.join(d, 'MC_CacheModel.cfg')
             txt = open(p).read().replace(a, b)
@@ -143,7 +144,8 @@ def part_history_switches():
         d = tempfile.mkdtemp(prefix='stspec', dir='/tmp')
         try:
             for f in os.listdir(lib.SPEC):
-                shutil.copy(os.path.join(lib.SPEC, f), d)
+                if os.path.isfile(os.path.join(lib.SPEC, f)):
+                    shutil.copy(os.path.join(lib.SPEC, f), d)
             a, b = sw.split('/')
             p = os.path.join(d, 'MC_WriteHistory_quick.cfg')
             txt = open(p).read().replace('  ' + a, '  ' + b)
@@ -161,7 +163,8 @@ def part_models():
         d = tempfile.mkdtemp(prefix='stspec', dir='/tmp')
         try:
             for f in os.listdir(lib.SPEC):
-                shutil.copy(os.path.join(lib.SPEC, f), d)
+                if os.path.isfile(os.path.join(lib.SPEC, f)):
+                    shutil.copy(os.path.join(lib.SPEC, f), d)
             if old is None:
                 p = os.path.join(d, cfg)
                 s = open(p).read().replace('Wrap = 0', 'Wrap = 256')
